@@ -75,13 +75,23 @@ WholeRecordCmp == << Bin("eq", CVar, V(VRec([k |-> VInt(1), s |-> VStr(<<97>>), 
                      Bin("ne", CVar, V(VRec([k |-> VInt(1), s |-> VStr(<<97>>)]))),
                      Bin("contains", SetE(<<CVar>>), V(VRec([k |-> VInt(1), s |-> VStr(<<97>>), e |-> U("a")]))),
                      Bin("contains", Acc(CVar, "ss"), L1), Bin("containsAll", Acc(CVar, "ss"), Sets[1]),
-                     Un("isEmpty", Acc(CVar, "ss")), Has(Acc(CVar, "r"), "n"), Has(CVar, "s") >>
+                     Un("isEmpty", Acc(CVar, "ss")), Has(Acc(CVar, "r"), "n"), Has(CVar, "s"),
+                     \* a collection that holds a record (two levels down)
+                     Bin("contains", Acc(CVar, "ss"), V(VRec([n |-> VInt(1)]))),
+                     Bin("eq", Acc(CVar, "ss"), V([k |-> "set", els |-> <<VRec([n |-> VInt(1)])>>])),
+                     \* short-circuit operators whose non-constant operand is not a boolean, under a parent
+                     \* that accepts any value (dropping the operator would turn a failure into a value)
+                     Bin("eq", Bin("and", T, CK), L1), Bin("eq", Bin("or", F, CK), L1), Bin("ne", Bin("and", T, PVar), UA),
+                     Has(RecE(<<[key |-> "a", val |-> Bin("and", T, CK)]>>), "a"),
+                     Bin("contains", SetE(<<Bin("or", F, CK)>>), L1),
+                     Bin("eq", If(T, CK, L1), L1), Bin("eq", Bin("and", CK, T), T), Bin("eq", Bin("or", CK, F), T) >>
 Pats == << <<97, -1>>, <<-1>>, <<98>> >>
 AttrNames == <<"n", "k", "a", "zz">>
 
 \* Depth-1 expressions by operator (a sequence of sequences)
 ByOp == <<
-  BinExprs("and", Bools, Bools), BinExprs("or", Bools, Bools), UnExprs("not", Bools),
+  \* (CK = context.k: a non-constant operand that is a bool, a long or missing depending on the context)
+  BinExprs("and", Bools \o <<CK>>, Bools \o <<CK>>), BinExprs("or", Bools \o <<CK>>, Bools \o <<CK>>), UnExprs("not", Bools \o <<CK>>),
   BinExprs("eq", Anys, Anys), BinExprs("ne", Anys, <<L1, UA, CK>>),
   BinExprs("lt", Longs, Longs), BinExprs("le", Longs, Longs), BinExprs("gt", Longs \o Dts, Longs \o Dts),
   BinExprs("ge", Durs \o Longs, Durs),
@@ -97,7 +107,7 @@ ByOp == <<
   LET ts == BinTuples(Ents, Ents \o <<Sets[3]>>) IN
      [i \in DOMAIN ts |-> [op |-> "isIn", a |-> ts[i][1], ty |-> "U", e |-> ts[i][2]]]
      \o [i \in DOMAIN ts |-> [op |-> "isIn", a |-> ts[i][1], ty |-> "G", e |-> ts[i][2]]],
-  LET cs == Bools \o Errs \o <<L1>>  bs == <<L1, NC, ErrE, SA>> IN
+  LET cs == Bools \o Errs \o <<L1, CK>>  bs == <<L1, NC, ErrE, SA>> IN
      Flat([c \in DOMAIN cs |-> Flat([t \in DOMAIN bs |-> [e \in DOMAIN bs |-> If(cs[c], bs[t], bs[e])]])]),
   LET es == <<L1, CK, ErrE, UA, PVar>> IN
      Flat([i \in DOMAIN es |-> [j \in DOMAIN es |-> SetE(<<es[i], es[j]>>)]]) \o <<SetE(<<>>), SetE(<<L1, L1, L2>>)>>,
